@@ -115,6 +115,9 @@ class WindowedBinaryAUROC(Metric[torch.Tensor]):
         if weight is None:
             weight = torch.ones_like(input, dtype=torch.double)
         _binary_auroc_update_input_check(input, target, self.num_tasks, weight)
+        # detach all three arguments before the window is touched: an argument that is not a
+        # tensor (the shape check is duck-typed) must fail here, not after `inputs` was written
+        input, target, weight = input.detach(), target.detach(), weight.detach()
         if input.ndim == 1:
             input = input.reshape(1, -1)
             target = target.reshape(1, -1)
